@@ -248,7 +248,7 @@ def run(ctx: Context) -> None:
         pt_p = dl.params[1]
         ok = md.has(f"$dn = self.line.project({pt_p}, normalized=True)",
                     "$lp = next(($v for $v in reversed(self.points) if $v.distance_normalised <= $dn))")
-        dist = md.stmt(f"$d = ORIGIN.distance($lp.crs.project_geometry({pt_p}, src_crs=$crs))")
+        dist = md.stmt(f"$d = ORIGIN.distance($lp.crs.project_geometry({pt_p}, src_crs=$$crs))")
         rets = dl.returns()
         ok = ok and dist is not None and bool(rets) and all(md.match('$lp.distance_metres + $d', r.value, commit=False) or md.match('$d + $lp.distance_metres', r.value, commit=False) for r in rets)
         ctx.check('R18.5', ok, "distance = cumulative distance of the last path vertex at or before the point + distance from that vertex (in that vertex's projection)", dl, dl.node)
@@ -257,7 +257,7 @@ def run(ctx: Context) -> None:
         pt = ctx.func(f"{TR}.points")
         mq = Matcher(ctx, pt)
         loop = mq.stmt('for $pt in map(shapely.Point, self.line.coords[1:]):\n    ...')
-        ok = loop is not None and mq.has('$prev = $points[-1]', '$step = ORIGIN.distance($prev.crs.project_geometry($pt, src_crs=$crs))', within=loop)
+        ok = loop is not None and mq.has('$prev = $points[-1]', '$step = ORIGIN.distance($prev.crs.project_geometry($pt, src_crs=$$crs))', within=loop)
         tp = [c for c in calls_in(pt) if (dotted(c.func) or '').endswith('TransectPoint') and loop is not None and any(x is c for x in ast.walk(loop))]
         ok = ok and len(tp) == 1 and mq.match('$prev.distance_metres + $step', kwarg(tp[0], 'distance_metres'), commit=False) \
             and mq.match('self.line.project($pt, normalized=True)', kwarg(tp[0], 'distance_normalised'), commit=False) \
